@@ -31,3 +31,7 @@ pub use variables::*;
 
 #[cfg(feature = "serde")]
 mod json;
+
+// verification-only hooks (see /verif); compiled only under the guard cfg
+#[cfg(oxfordcontrol_clarabel_rs_verif)]
+pub mod verif_hooks;
